@@ -373,6 +373,13 @@ impl DistinguishedName {
 		}
 		self.entries.insert(ty, s.into());
 	}
+	/// Checks the object identifiers of custom attribute types
+	fn check_oids(&self) -> Result<(), Error> {
+		self.order.iter().try_for_each(|ty| match ty {
+			DnType::CustomDnType(oid) => check_oid(oid),
+			_ => Ok(()),
+		})
+	}
 	/// Iterate over the entries
 	pub fn iter(&self) -> DistinguishedNameIterator<'_> {
 		DistinguishedNameIterator {
@@ -580,6 +587,17 @@ fn check_time_encodable(dt: OffsetDateTime) -> Result<(), Error> {
 		Ok(())
 	} else {
 		Err(Error::Time)
+	}
+}
+
+/// Checks that `oid` is something that can be encoded as an OBJECT IDENTIFIER (the writer
+/// panics otherwise).
+fn check_oid(oid: &[u64]) -> Result<(), Error> {
+	match oid {
+		[0 | 1, second, ..] if *second < 40 => Ok(()),
+		// The first two components share a sub-identifier (2 * 40 + second)
+		[2, second, ..] if *second <= u64::MAX - 81 => Ok(()),
+		_ => Err(Error::InvalidOid(oid.to_vec())),
 	}
 }
 
